@@ -1,6 +1,7 @@
 """C08 — bytes gained by growing a stream read as zero, whatever was there before."""
 from . import common as C
 from . import physlib as P
+import re
 
 PID = "C08"
 MODULE = "CfbVerif.Props.C08"
@@ -41,6 +42,30 @@ def run(ctx):
             hist[k] = hist.get(k, 0) + v
         if sample and len(samples) < 2:
             samples.append([l[:100] for l in sample])
+    # files another writer produced, whose free sectors and free mini sectors still hold old bytes (every second
+    # synthesised layout: markers c0 c1 c2 ... / b7 b7 ...): histories on them grow streams into that space; the marker
+    # must never show in anything a stream returns
+    from . import rawlib as R
+    import os, shutil
+    laydir = R.scratch(ctx, "lay08")
+    try:
+        lops, limp = ctx.path("lay08.ops"), ctx.path("lay08.impl")
+        rc_l, out_l = C.harness(["layout", "--outdir", laydir, "--ops", lops, "--impl", limp, "--seed", ctx.seed + 88, "--count", 60 if quick else 1500], timeout=3000)
+        lst, _, lorc = C.parse_stats(out_l)
+        if rc_l != 0:
+            ctx.undischarged.append("harness layout crashed: " + out_l[-300:])
+        total_ops += lst.get("ops", 0)
+        hist["foreign-layouts-with-stale-free-space:histories"] = lst.get("histories", 0)
+        for msg in [m for m in lorc if "c0c1c2c3c4c5c6c7" in m or "b7b7b7b7b7b7b7b7" in m][:2]:
+            m = re.search(r"(/\S+?\.cfb)", msg)
+            keep = None
+            if m and os.path.exists(m.group(1)):
+                keep = os.path.join(ctx.replaydir, "foreign_stale_free_space.cfb")
+                shutil.copy(m.group(1), keep)
+            C.add_violation(ctx, "foreign-free-space:stale-bytes-visible", re.sub(r"[0-9a-f]{80,}", "<bytes>", msg)[:400],
+                            "# C08 on a file another writer produced (free sectors not cleared): bytes of the free space show through a stream\n# %s\n# the synthesised image is kept as %s; the API calls are in the message\n" % (msg[:3000], keep))
+    finally:
+        R.cleanup(ctx)
     # two handles on one stream (harness/src/twoh.rs): growth judged by the directory entry's length before and
     # after, refusals judged by the backing bytes and by the same call made again — decided on the implementation
     rc_t, out_t = C.harness(["twohandles", "--seed", ctx.seed, "--count", 1500 if ctx.tier == "quick" else 30000], timeout=3600)
